@@ -77,12 +77,13 @@ def optimize_prec_assignment(model: MPS,
                     raise ValueError("Unsupported quantizer type")
 
                 best_cost = copy.deepcopy(base_cost)
-                best_cost_w_theta_alpha_array = copy.deepcopy(w_theta_alpha_array)
                 config_cost = _compute_cost(model, layer, w_theta_alpha_array, cost_fn_map, lname, node)
                 assert config_cost == base_cost, "The cost of the layer is not consistent with the original configuration"
 
                 sorted_indexes = torch.argsort(layer.w_mps_quantizer.precision)
                 sorted_precisions = [layer.w_mps_quantizer.precision[i] for i in sorted_indexes]
+                # the best configuration is always kept in increasing-precision order
+                best_cost_w_theta_alpha_array = [copy.deepcopy(w_theta_alpha_array)[i] for i in sorted_indexes]
 
                 # Case 1: assign a channel at a time to a higher precision. Save the configuration if the cost decreases
                 w_theta_alpha_array_tmp = [copy.deepcopy(w_theta_alpha_array)[i] for i in sorted_indexes]
@@ -136,7 +137,8 @@ def optimize_prec_assignment(model: MPS,
                 best_model_cost += best_cost
 
                 # Sort the best configuration according to the original order of the precisions
-                best_theta_alpha_array = torch.tensor([best_cost_w_theta_alpha_array[i] for i in sorted_indexes])
+                inverse_indexes = torch.argsort(sorted_indexes)
+                best_theta_alpha_array = torch.tensor([best_cost_w_theta_alpha_array[i] for i in inverse_indexes])
                 best_theta_alpha_array = torch.mul(best_theta_alpha_array, layer.w_mps_quantizer.theta_alpha.shape[1])
 
                 # Update the layer with the best configuration.
